@@ -649,7 +649,8 @@ func (idx *indexer) indexSince(txID uint64) error {
 
 			n := serializeIndexableEntry(b[:], txmd, e, kvmd)
 
-			idx._kvs[indexableEntries].K = targetKey
+			// the key may point into idx.tx, which is reused for the next tx of the bulk
+			idx._kvs[indexableEntries].K = cp(targetKey)
 			idx._kvs[indexableEntries].V = b[:n]
 			idx._kvs[indexableEntries].T = txID + uint64(i)
 
